@@ -115,6 +115,12 @@ pub struct Report {
     pub closure: String,
     pub closure_time_s: f64,
     pub path_conditions: Vec<String>,
+    /// hashes of the explored traces (complete paths and runs cut short by an assumption), for the closure check
+    #[serde(default)]
+    pub path_sigs: Vec<u64>,
+    /// inputs that exact arithmetic puts on no explored path but that follow one under IEEE (rounded terms)
+    #[serde(default)]
+    pub closure_ieee_only: u64,
     pub closure_domain: Vec<(i64, i64)>,
     pub second_opinions: u64,
     pub second_opinion_skipped: u64,
@@ -398,6 +404,7 @@ pub fn explore(cfg: &Config, sym: &dyn Fn(), native: Option<&dyn Fn()>) -> Repor
                     rep.closure = "skipped: more than 30000 path conditions".into();
                     rep.path_conditions.clear();
                 } else if is_new_path || assume_failed {
+                    rep.path_sigs.push(h);
                     let mut pcs = vec![crate::solver::inline_path_condition(a, a.trace.len())];
                     // an assumption that held on this run excludes the inputs that reach it and violate
                     // it; nobody executes that region (the explorer never flips a satisfied assumption), so it
@@ -625,7 +632,7 @@ pub fn explore(cfg: &Config, sym: &dyn Fn(), native: Option<&dyn Fn()>) -> Repor
     if cfg.closure && rep.closure.is_empty() && !frontier_reached && cfg.initial_work.is_empty() {
         let done = !budget_hit && work.is_empty() && rep.undecided_flips == 0 && rep.unrealised_flips == 0 && rep.violations.is_empty();
         if done {
-            run_closure(&mut rep, &cfg.solver);
+            run_closure(&mut rep, &cfg.solver, Some(sym));
         } else {
             rep.closure = "skipped: the exploration did not close".into();
             rep.path_conditions.clear();
@@ -665,6 +672,7 @@ impl Report {
         }
         if self.closure.is_empty() {
             self.path_conditions.extend(o.path_conditions.iter().cloned());
+            self.path_sigs.extend(o.path_sigs.iter().cloned());
             if o.closure_domain.len() > self.closure_domain.len() {
                 self.closure_domain = o.closure_domain.clone();
             }
@@ -674,7 +682,15 @@ impl Report {
 
 /// domain /\ not(pc_1 \/ ... \/ pc_n) must be unsatisfiable: every input of the domain follows one of the
 /// explored paths.  Decided in a fresh solver process, independently of the incremental contexts used above.
-pub fn run_closure(rep: &mut Report, solver_bin: &str) {
+pub fn trace_hash(a: &crate::arena::Arena) -> u64 {
+    let mut h = 0u64;
+    for ev in &a.trace {
+        h = mix(h, mix(a.bools[ev.cond as usize].2, ev.outcome as u64 + 2 * (ev.kind == EvKind::Assume) as u64));
+    }
+    h
+}
+
+pub fn run_closure(rep: &mut Report, solver_bin: &str, sym: Option<&dyn Fn()>) {
     let t0 = Instant::now();
     let mut s = Solver::new(solver_bin, 120_000);
     let mut txt = String::new();
@@ -685,6 +701,7 @@ pub fn run_closure(rep: &mut Report, solver_bin: &str) {
     if std::env::var("SYMX_CLOSURE_SELFTEST").is_ok() {
         // self-test of this check: forget one explored path; the answer must become "failed"
         rep.path_conditions.pop();
+        rep.path_sigs.pop();
     }
     for chunk in rep.path_conditions.chunks(200) {
         let mut t = String::new();
@@ -693,11 +710,35 @@ pub fn run_closure(rep: &mut Report, solver_bin: &str) {
         }
         s.send(&t);
     }
-    rep.closure = match s.check(rep.closure_domain.len()) {
-        Answer::Unsat => "proved".into(),
-        Answer::Sat(m) => format!("failed: input {:?} lies on no explored path", m),
-        Answer::Unknown(r) => format!("unknown ({})", r),
+    // The query is over exact arithmetic.  Where path conditions contain rounded terms, an input can sit on one side
+    // of a decision in exact arithmetic and on the other under IEEE: such an input satisfies no recorded path
+    // condition although the real code, run on it, follows an explored path.  A counter-model is therefore re-run;
+    // if its trace is one of the explored ones it is excluded and the solver asked again, otherwise the check fails.
+    let sigs: std::collections::HashSet<u64> = rep.path_sigs.iter().cloned().collect();
+    let nvars = rep.closure_domain.len();
+    let mut ieee_only = 0u64;
+    rep.closure = loop {
+        match s.check(nvars) {
+            Answer::Unsat => break if ieee_only == 0 { "proved".to_string() } else { format!("proved (up to {} inputs that exact arithmetic puts on no explored path while the code, run on them, follows one: rounded terms in path conditions)", ieee_only) },
+            Answer::Sat(m) => {
+                let follows = match sym {
+                    Some(f) if ieee_only < 200 => {
+                        let o = run_once(true, &m, f);
+                        sigs.contains(&trace_hash(&o.arena))
+                    }
+                    _ => false,
+                };
+                if !follows {
+                    break format!("failed: input {:?} lies on no explored path", m);
+                }
+                ieee_only += 1;
+                let block: Vec<String> = m.iter().enumerate().map(|(i, v)| format!("(not (= x{} {}))", i, crate::solver::ilit(*v))).collect();
+                s.send(&format!("(assert (or false {}))\n", block.join(" ")));
+            }
+            Answer::Unknown(r) => break format!("unknown ({})", r),
+        }
     };
+    rep.closure_ieee_only = ieee_only;
     rep.closure_time_s = t0.elapsed().as_secs_f64();
     rep.path_conditions.clear();
 }
